@@ -137,6 +137,9 @@ def run(case, rec):
     thr = cfg["threshold"]
     kwargs = {"threshold": float(thr) if thr[0].isdigit() else thr, "modes": cfg["modes"],
               "interface_width": cfg["width"], "refine": cfg["refine"]}
+    if cfg["refine"] and case.get("workers"):
+        kwargs["num_processes"] = 2  # the number of worker processes is not part of the requested model
+        rec.count("refined_with_worker_processes")
     call = common.monitored(rec, "locate_droplets", droplets.locate_droplets, ScalarField(grid, data), **kwargs)
     label = f"config={cfg} variant={variant}"
     if cfg["modes"] > 0 and cfg["dim"] == 1:
@@ -185,6 +188,8 @@ def run_shard(spec, rec):
         # influence the class of later results (no state may be shared between calls)
         interfere(i, rec)
         case = {"kind": "configs", "config": allc[i], "variant": spec["variant"], "seed": spec["seed"]}
+        if allc[i]["refine"] and (i * 7 + spec["seed"]) % 16 == 3:
+            case["workers"] = True
         with rec.case("configs", case):
             try:
                 run(case, rec)
